@@ -80,11 +80,141 @@ def eval3(f, idx, env, node_vals):
         return a if a == b else U
     if k == 'call' and n.get('op') == '!' and n.get('obj') is not None:
         return not3(eval3(f, n['obj'], env, node_vals))
+    if k == 'call' and n.get('obj') is not None and not n.get('args') and strip_targs(n.get('c', '')).endswith('::operator bool'):
+        return eval3(f, n['obj'], env, node_vals)
+    if k == 'call' and n.get('op') in ('==', '!='):
+        # smart pointer compared with nullptr: the pointer's pinned "is non-null" value decides
+        ops = ([n['obj']] if n.get('obj') is not None else []) + [a for a in n.get('args', []) if a is not None and a >= 0]
+        if len(ops) == 2:
+            for a, b in ((ops[0], ops[1]), (ops[1], ops[0])):
+                bn = f.nodes[b]
+                while bn['k'] == 'cast':
+                    bn = f.nodes[bn['e']]
+                if bn['k'] == 'lit' and bn.get('null'):
+                    v = eval3(f, a, env, node_vals)
+                    if v is U:
+                        return U
+                    return (not v) if n['op'] == '==' else v
     return U
 
 
 def is_bool_var_type(t):
     return t in ('bool', 'const bool')
+
+
+class _Info:
+    """per-graph tables for walking through inlined helper contexts: children of a context (call idx -> child ctx), the
+    context that starts at a point, and the local variable ids of a function (cleared on every entry)."""
+    def __init__(self, g):
+        self.children = {}
+        self.entry_of = {}
+        self._locals = {}
+        for c in g.ctxs:
+            if c.parent is None or c.call is None:
+                continue
+            if not c.lambda_of:
+                self.children.setdefault(id(c.parent), []).append((c.call['i'], c))
+            b = g.ctx_bounds.get(id(c))
+            if b:
+                self.entry_of[b[0].id] = c
+
+    def locals_of(self, f):
+        r = self._locals.get(id(f))
+        if r is None:
+            r = {p['id'] for p in f.params}
+            for n in f.nodes:
+                if n['k'] == 'declstmt':
+                    r.update(d['id'] for d in n['decls'])
+            self._locals[id(f)] = r
+        return r
+
+
+def _info(g):
+    i = getattr(g, '_symb_info', None)
+    if i is None:
+        i = g._symb_info = _Info(g)
+    return i
+
+
+def _local_pins(g, info, ctx, f, env, pins):
+    """the pins that apply to expressions of function f evaluated in context ctx: plain node indices pin nodes of the root
+    function, (id(func), idx) pins nodes of an inlined helper; the value an inlined helper returned (tracked in env) pins
+    the call node in its caller."""
+    kids = info.children.get(id(ctx))
+    if ctx is g.root_ctx and not kids:
+        if not any(isinstance(k, tuple) for k in pins):
+            return pins
+    out = {}
+    root = ctx is g.root_ctx
+    fid = id(f)
+    for k, v in pins.items():
+        if isinstance(k, tuple):
+            if k[0] == fid:
+                out[k[1]] = v
+        elif root:
+            out[k] = v
+    for (ci, ch) in kids or ():
+        rv = env.get(('ret', id(ch)))
+        if rv is not None and ci not in out:
+            out[ci] = rv
+    return out
+
+
+def _transfer(g, info, p, env, pins, bool_only=True):
+    """effect of passing point p on the tracked boolean variables (root function and inlined helpers alike)"""
+    c = info.entry_of.get(p.id)
+    if c is not None:
+        # entering an inlined helper: forget its locals, bind its boolean parameters to the argument values
+        env = dict(env)
+        for v in info.locals_of(c.f):
+            env.pop(v, None)
+        env.pop(('ret', id(c)), None)
+        lp = _local_pins(g, info, c.parent, c.caller, env, pins)
+        args = c.call.get('args', []) if not c.lambda_of else []
+        for pi, prm in enumerate(c.f.params):
+            if pi < len(args) and args[pi] is not None and args[pi] >= 0 and is_bool_var_type(prm.get('t', '')):
+                v = eval3(c.caller, args[pi], env, lp)
+                if v is not U:
+                    env[prm['id']] = v
+    n = p.n
+    if n is None:
+        return env
+    f = p.f
+    lp = None
+    for (vid, strong, vx) in defs_in_node(f, n):
+        if lp is None:
+            lp = _local_pins(g, info, p.ctx, f, env, pins)
+        if n['k'] == 'declstmt':
+            d = [d for d in n['decls'] if d['id'] == vid][0]
+            if 'init' in d and (not bool_only or is_bool_var_type(d['t'])):
+                env = dict(env)
+                env[vid] = eval3(f, d['init'], env, lp)
+        elif n['k'] == 'binop' and n['op'] == '=':
+            if not bool_only or is_bool_var_type(f.nodes[n['lhs']].get('t') or ''):
+                env = dict(env)
+                env[vid] = eval3(f, n['rhs'], env, lp)
+        elif vid in env:
+            env = dict(env)
+            env[vid] = U
+    if n['k'] == 'return' and p.ctx is not g.root_ctx:
+        if lp is None:
+            lp = _local_pins(g, info, p.ctx, f, env, pins)
+        env = dict(env)
+        e = n.get('e')
+        env[('ret', id(p.ctx))] = eval3(f, e, env, lp) if e is not None and e >= 0 else U
+    return env
+
+
+def _edge_feasible(g, info, p, lab, env, pins):
+    if lab and isinstance(lab[0], int) and lab[1] is p.f:
+        cv = eval3(p.f, lab[0], env, _local_pins(g, info, p.ctx, p.f, env, pins))
+        if cv is not U and cv != lab[2]:
+            return False
+    return True
+
+
+def _envkey(env):
+    return frozenset(env.items())
 
 
 def explore_false_child(g, child_pt, same_child, max_visits=2, limit=20000):
@@ -160,6 +290,7 @@ def feasible_reach(g, starts, targets, avoid=(), env0=None, limit=20000, pins=No
     are evaluated three-valued, definitely-false edges are pruned)?  Returns the path or None."""
     f = g.func
     pins = pins or {}
+    info = _info(g)
     tids = {t.id for t in targets}
     aids = {a.id for a in avoid}
     seen = set()
@@ -170,41 +301,27 @@ def feasible_reach(g, starts, targets, avoid=(), env0=None, limit=20000, pins=No
         steps[0] += 1
         if steps[0] > limit:
             return path
-        key = (p.id, tuple(sorted(env.items())))
+        key = (p.id, _envkey(env))
         if key in seen or p.id in aids:
             continue
         seen.add(key)
         if p.id in tids:
             return path
-        n = p.n
-        if n is not None and p.f is f and p.ctx is g.root_ctx:
-            for (vid, strong, vx) in defs_in_node(f, n):
-                if n['k'] == 'declstmt':
-                    d = [d for d in n['decls'] if d['id'] == vid][0]
-                    if 'init' in d and is_bool_var_type(d['t']):
-                        env = dict(env)
-                        env[vid] = eval3(f, d['init'], env, pins)
-                elif n['k'] == 'binop' and n['op'] == '=':
-                    if is_bool_var_type(f.nodes[n['lhs']].get('t') or ''):
-                        env = dict(env)
-                        env[vid] = eval3(f, n['rhs'], env, pins)
-                elif vid in env:
-                    env = dict(env)
-                    env[vid] = U
+        env = _transfer(g, info, p, env, pins)
         for (q, lab) in p.succ:
-            if lab and isinstance(lab[0], int) and lab[1] is f and p.ctx is g.root_ctx:
-                cv = eval3(f, lab[0], env, pins)
-                if cv is not U and cv != lab[2]:
-                    continue
+            if not _edge_feasible(g, info, p, lab, env, pins):
+                continue
             stack.append((q, env, path + [q] if len(path) < 80 else path))
     return None
 
 
-def feasible_armed_reach(g, arm, disarm, targets, limit=40000):
+def feasible_armed_reach(g, arm, disarm, targets, limit=40000, pins=None):
     """Explore feasible paths from the function entry (boolean locals tracked as in feasible_reach).  Passing a
     point of `arm` arms the walk, passing one of `disarm` disarms it; returns a path that reaches a point of
     `targets` while armed, or None."""
     f = g.func
+    pins = pins or {}
+    info = _info(g)
     arm_ids = {p.id for p in arm}
     dis_ids = {p.id for p in disarm}
     tids = {t.id for t in targets}
@@ -216,7 +333,7 @@ def feasible_armed_reach(g, arm, disarm, targets, limit=40000):
         steps += 1
         if steps > limit:
             return None
-        key = (p.id, tuple(sorted(env.items())), armed)
+        key = (p.id, _envkey(env), armed)
         if key in seen:
             continue
         seen.add(key)
@@ -224,28 +341,12 @@ def feasible_armed_reach(g, arm, disarm, targets, limit=40000):
             return path
         if p.id in dis_ids:
             armed = False
-        n = p.n
-        if n is not None and p.f is f and p.ctx is g.root_ctx:
-            for (vid, strong, vx) in defs_in_node(f, n):
-                if n['k'] == 'declstmt':
-                    d = [d for d in n['decls'] if d['id'] == vid][0]
-                    if 'init' in d and is_bool_var_type(d['t']):
-                        env = dict(env)
-                        env[vid] = eval3(f, d['init'], env, {})
-                elif n['k'] == 'binop' and n['op'] == '=':
-                    if is_bool_var_type(f.nodes[n['lhs']].get('t') or ''):
-                        env = dict(env)
-                        env[vid] = eval3(f, n['rhs'], env, {})
-                elif vid in env:
-                    env = dict(env)
-                    env[vid] = U
+        env = _transfer(g, info, p, env, pins)
         if p.id in arm_ids:
             armed = True
         for (q, lab) in p.succ:
-            if lab and isinstance(lab[0], int) and lab[1] is f and p.ctx is g.root_ctx:
-                cv = eval3(f, lab[0], env, {})
-                if cv is not U and cv != lab[2]:
-                    continue
+            if not _edge_feasible(g, info, p, lab, env, pins):
+                continue
             stack.append((q, env, armed, path + [q] if len(path) < 80 else path))
     return None
 
@@ -256,6 +357,7 @@ def returns_under_pins(g, pins, limit=20000, assign_at=None):
     assign_at: node idx -> {var id: T/F}: what a call stores into its boolean out-parameters."""
     assign_at = assign_at or {}
     f = g.func
+    info = _info(g)
     out = set()
     seen = set()
     stack = [(g.entry, {})]
@@ -266,36 +368,23 @@ def returns_under_pins(g, pins, limit=20000, assign_at=None):
         if steps > limit:
             out.add(U)
             break
-        key = (p.id, tuple(sorted(env.items())))
+        key = (p.id, _envkey(env))
         if key in seen:
             continue
         seen.add(key)
         n = p.n
+        env = _transfer(g, info, p, env, pins)
         if n is not None and p.f is f and p.ctx is g.root_ctx:
-            for (vid, strong, vx) in defs_in_node(f, n):
-                if n['k'] == 'declstmt':
-                    d = [d for d in n['decls'] if d['id'] == vid][0]
-                    if 'init' in d and is_bool_var_type(d['t']):
-                        env = dict(env)
-                        env[vid] = eval3(f, d['init'], env, pins)
-                elif n['k'] == 'binop' and n['op'] == '=':
-                    if is_bool_var_type(f.nodes[n['lhs']].get('t') or ''):
-                        env = dict(env)
-                        env[vid] = eval3(f, n['rhs'], env, pins)
-                elif vid in env:
-                    env = dict(env)
-                    env[vid] = U
             if n['i'] in assign_at:
                 env = dict(env)
                 env.update(assign_at[n['i']])
             if n['k'] == 'return':
-                out.add(eval3(f, n.get('e'), env, pins) if n.get('e') is not None else U)
+                lp = _local_pins(g, info, p.ctx, f, env, pins)
+                out.add(eval3(f, n.get('e'), env, lp) if n.get('e') is not None else U)
                 continue
         for (q, lab) in p.succ:
-            if lab and isinstance(lab[0], int) and lab[1] is f and p.ctx is g.root_ctx:
-                cv = eval3(f, lab[0], env, pins)
-                if cv is not U and cv != lab[2]:
-                    continue
+            if not _edge_feasible(g, info, p, lab, env, pins):
+                continue
             stack.append((q, env))
     return out
 
@@ -308,6 +397,7 @@ def explore_pinned(g, pins, switch_vals=None, probes=(), limit=40000):
     seen_probes = {probe node idx: set of three-valued values the expression has when the walk passes that point}."""
     f = g.func
     switch_vals = switch_vals or {}
+    info = _info(g)
     probe_idx = set(probes)
     rets = set()
     seenp = {}
@@ -320,30 +410,20 @@ def explore_pinned(g, pins, switch_vals=None, probes=(), limit=40000):
         if steps > limit:
             rets.add((None, U))
             break
-        key = (p.id, tuple(sorted(env.items())))
+        key = (p.id, _envkey(env))
         if key in seen:
             continue
         seen.add(key)
         n = p.n
+        if n is not None and p.f is f and p.ctx is g.root_ctx and n['i'] in probe_idx:
+            seenp.setdefault(n['i'], set()).add(eval3(f, n['i'], env, _local_pins(g, info, p.ctx, f, env, pins)))
+        env = _transfer(g, info, p, env, pins)
         if n is not None and p.f is f and p.ctx is g.root_ctx:
-            if n['i'] in probe_idx:
-                seenp.setdefault(n['i'], set()).add(eval3(f, n['i'], env, pins))
-            for (vid, strong, vx) in defs_in_node(f, n):
-                if n['k'] == 'declstmt':
-                    d = [d for d in n['decls'] if d['id'] == vid][0]
-                    if 'init' in d and is_bool_var_type(d['t']):
-                        env = dict(env)
-                        env[vid] = eval3(f, d['init'], env, pins)
-                elif n['k'] == 'binop' and n['op'] == '=':
-                    if is_bool_var_type(f.nodes[n['lhs']].get('t') or ''):
-                        env = dict(env)
-                        env[vid] = eval3(f, n['rhs'], env, pins)
-                elif vid in env:
-                    env = dict(env)
-                    env[vid] = U
             if n['k'] == 'return':
                 e = n.get('e')
-                rets.add((n['i'], eval3(f, e, env, pins) if e is not None and e >= 0 else U, frozenset(env.items())))
+                lp = _local_pins(g, info, p.ctx, f, env, pins)
+                rets.add((n['i'], eval3(f, e, env, lp) if e is not None and e >= 0 else U,
+                          frozenset((k, v) for (k, v) in env.items() if not isinstance(k, tuple))))
                 continue
         succ = p.succ
         cases = [(q, lab) for (q, lab) in succ if lab and lab[0] == 'case']
@@ -355,9 +435,7 @@ def explore_pinned(g, pins, switch_vals=None, probes=(), limit=40000):
                 exact = [(q, lab) for (q, lab) in cases if lab[3] == 'case' and lab[1] == val]
                 succ = exact or [(q, lab) for (q, lab) in cases if lab[3] != 'case']
         for (q, lab) in succ:
-            if lab and isinstance(lab[0], int) and lab[1] is f and p.ctx is g.root_ctx:
-                cv = eval3(f, lab[0], env, pins)
-                if cv is not U and cv != lab[2]:
-                    continue
+            if not _edge_feasible(g, info, p, lab, env, pins):
+                continue
             stack.append((q, env))
     return rets, seenp
